@@ -567,11 +567,30 @@ pub fn run(report: &mut Report, tier: &str) {
     for (cfg, b) in cfgs(tier) {
         sched::run_into(&BarrierSc(cfg), &b, report);
     }
+    // E4: requests at the same instant on several workers - one requester, and others that
+    // request only in reaction to its broadcast; the recorded first status is the first one's
+    let thorough = tier == "thorough";
+    let mut names = vec!["shutdown:1"];
+    if thorough {
+        names.push("shutdown:2");
+    }
+    let sc: Vec<vkit::loomrun::LoomScenario> = names
+        .into_iter()
+        .map(|n| vkit::loomrun::LoomScenario {
+            name: n.to_string(),
+            preemptions: 3,
+            wall: Duration::from_secs(if thorough { 900 } else { 120 }),
+        })
+        .collect();
+    vkit::loomrun::run_into(&sc, report);
     report.set("exhaustive", json!(true));
     report.set("rule", json!("run_internet_with_timeout is itself a task of the explored runtime; every execution within d task-order/select deviations is run under a paused clock; the harness records a global order of initialisation-finished, frame, demux and shutdown-request events"));
 }
 
 pub fn replay(w: &serde_json::Value, tier: &str) -> String {
+    if let Some(s) = vkit::loomrun::replay(w) {
+        return s;
+    }
     let name = w["scenario"].as_str().unwrap_or("");
     let ch: Vec<u16> = w["choices"]
         .as_array()
